@@ -59,12 +59,13 @@ def _run_matrix(job):
         for f, d, ft in job["matrix"]:
             obj, kw, closer = wbgen.deliver(wb, f, d, ft, tmp)
             try:
-                res = conv.convert_case({"input": {"kind": "path" if isinstance(obj, str) and d == "path" else ("dict" if f == "dict" else "md"), "data": obj}, "kwargs": kw, "events": False})
+                res = conv.convert_case({"input": {"kind": "path" if isinstance(obj, str) and d == "path" else ("dict" if f in ("dict", "dict_rows") else "md"), "data": obj}, "kwargs": kw, "events": False})
             finally:
                 if closer:
                     closer()
             results.append({"f": f, "d": d, "ft": ft, "status": res["status"], "xform": wbgen.digest(res.get("xform")), "warnings": wbgen.digest(res.get("warnings")),
-                            "itemsets": wbgen.digest(res.get("itemsets")), "message": (res.get("message") or "")[:200]})
+                            "itemsets": wbgen.digest(res.get("itemsets")), "xform_canon": wbgen.digest(wbgen.canon_xform(res.get("xform"))),
+                            "itemsets_canon": wbgen.digest(wbgen.canon_itemsets(res.get("itemsets"))), "message": (res.get("message") or "")[:200]})
     finally:
         shutil.rmtree(tmp, ignore_errors=True)
     return {"job": {k: v for k, v in job.items() if k not in ("wb",)}, "wb": wb, "trace": [{"ev": "matrix", "results": results}]}
